@@ -33,9 +33,9 @@ THEOREMS = [
     "C16_names_unique",
     "C16_names_unique_readd_refuted",
     "C16_names_unique_same_batch",
-    "C16_accepted_batch_names_distinct",
+    "C16_names_unique_within_call",
     "C16_names_unique_after_rejected_batch_refuted",
-    "C16_names_unique_inner_title_refuted",
+    "C16_names_unique_inner_title_rejected",
     "C16_split_permutation",
     "C16_split_renaming_bijective",
     "C16_renaming_keeps_name_and_key",
@@ -583,7 +583,7 @@ def derive_call(nb, step, d0, rec):
         defs.append("mkDef %d [%s] (%s)" % (nb.key(inv[rid]), "; ".join(scr), ins))
     if not ok:
         if res["r"] == "err" and "map to the same type name" in (res.get("msg") or ""):
-            # fix c22ef06: the MODEL has to find the colliding definition itself (batch_dup)
+            # fixes c22ef06 / 40183ea: the MODEL has to find the collision itself (batch_dup / created_dup)
             return "AddRefs [%s] [] None" % "; ".join(defs), None, 1
         partial = assigned if done == 0 else []
         return "AddRefsErr [%s] %d [%s]" % ("; ".join(defs), done, "; ".join(partial)), None, 1
